@@ -142,6 +142,16 @@ func judge(times []int64, now int64, fails int, ft int64) (oneSided, twoSided, s
 	return
 }
 
+// stepClock is the time source: the library's mock (for the interface's timer methods, unused by
+// the passive filter) with Now driven by the timeline. clock.Mock.Add sleeps 1 ms of real time per
+// call, which would dominate the run time.
+type stepClock struct {
+	*clock.Mock
+	now time.Time
+}
+
+func (c *stepClock) Now() time.Time { return c.now }
+
 type fixedList struct{ cur stringset.Set }
 
 func (l *fixedList) Resolve() stringset.Set { return l.cur.Copy() }
@@ -157,7 +167,7 @@ func run(c Case) pbt.Verdict {
 		return pbt.Verdict{Discard: true}
 	}
 	fails, ft := effective(c)
-	clk := clock.NewMock()
+	clk := &stepClock{Mock: clock.NewMock(), now: time.Unix(1500000000, 0)}
 	pf := healthcheck.NewPassiveFilter(healthcheck.PassiveFilterConfig{Fails: c.Fails, FailTimeout: time.Duration(c.FailTimeout)}, clk)
 	hosts := &fixedList{cur: stringset.New()}
 	passive := healthcheck.NewPassive(hosts, pf)
@@ -215,7 +225,7 @@ func run(c Case) pbt.Verdict {
 			passive.Failed(name(op.Host))
 			rec[op.Host] = append(rec[op.Host], now)
 		case opAdvance:
-			clk.Add(time.Duration(op.D))
+			clk.now = clk.now.Add(time.Duration(op.D))
 			now += op.D
 		case opRun:
 			addrs := stringset.New()
@@ -316,7 +326,7 @@ func TestProp(t *testing.T) {
 		Assumptions: []string{
 			"oracle: the window rule computed from the recorded failure times (reference written from the statement and the PassiveFilterConfig doc)",
 			"the window is the FailTimeout interval ending at the anchoring failure (config doc); where the two-sided reading of 'within FailTimeout of some failure' gives a different answer either result is accepted",
-			"andres-erbsen clock.Mock is the time source",
+			"the time source is a clock.Clock whose Now is set by the timeline (the filter reads nothing else)",
 		},
 		Parts: []pbt.Part{pbt.NewPart("timeline", 1, gen, run)},
 	})
